@@ -122,6 +122,20 @@ CLAIMED = {
          "main theorem: a handler's own Content-Length is truthful; trusted: Coq kernel, extraction, lib/srv.py, python strict parser",
     technique="Coq proof over executable model + differential correspondence (extracted OCaml vs real lighttpd over loopback, fault-injected) + strict RFC 9112 parser monitor",
     design="5/C04"),
+ "C09": dict(
+    text="Coq theorems over an executable model of the request side of the gateway modules (http_cgi_encode_varname and the header loop of "
+         "http_cgi_headers, request-derived RFC 3875 meta-variables, FastCGI name-value pair encoding with a strict decoder, STDIN record framing, "
+         "SCGI netstring framing with a strict decoder): PARAMS decode to exactly the encoded pairs for all lengths (1-/4-byte forms and the 127/128 "
+         "boundary), a client header only ever becomes CONTENT_TYPE or an HTTP_* variable, no spelling of any header yields HTTP_PROXY, STDIN "
+         "records concatenate to the body and end with an empty record, the netstring parses back leaving exactly the body; tied by differential "
+         "correspondence against the real lighttpd with recording FastCGI / SCGI / HTTP backends x stream-request-body 0/1/2 x bodies to 1.1 MiB "
+         "(5 MiB thorough) in Content-Length / chunked framing and adversarial segmentation (incl. spooling to temporary files), PARAMS bytes "
+         "compared with the model's encoding, variables with the model's, everything judged by an RFC 3875 / RFC 9110 monitor",
+    note="PARTIAL: socket/configuration-derived variables, uwsgi, CGI's execve environment, mod_proxy's rewriting and HTTP/2 request bodies are "
+         "monitor-only; lighttpd answers 411 to a chunked body it would have to stream to a CGI-type backend (nothing forwarded: not judged); body "
+         "spooling itself is C17's theorem; trusted: Coq kernel, extraction, lib/srv.py, lib/backend.py, python monitor",
+    technique="Coq proof over executable model + differential correspondence (extracted OCaml vs real lighttpd with recording backends) + RFC 3875 monitor",
+    design="5/C09"),
  "C10": dict(
     text="Coq theorems over an executable model of the backend-response side: the FastCGI record layer as mod_fastcgi.c reads it (content = exactly the "
          "STDOUT content for all records, paddings and trailing data; a stream cut anywhere before the last byte of END_REQUEST is never done) and the "
